@@ -186,6 +186,7 @@ func (sn *Node) GetOccupiedResource() *resources.Resource {
 }
 
 func (sn *Node) UpdateAllocatedResource(delta *resources.Resource) {
+	defer sn.notifyListeners()
 	sn.Lock()
 	defer sn.Unlock()
 	sn.allocatedResource.AddTo(delta)
@@ -374,6 +375,7 @@ func (sn *Node) AddAllocation(alloc *Allocation) {
 
 // UpdateForeignAllocation updates a foreign allocation and re-calculates the available/occupied resources
 func (sn *Node) UpdateForeignAllocation(alloc *Allocation) *Allocation {
+	defer sn.notifyListeners()
 	sn.Lock()
 	defer sn.Unlock()
 	key := alloc.GetAllocationKey()
